@@ -168,6 +168,36 @@ func runC01(c *eng.Ctx) {
 		neverBeforeDeep(c, f, eng.AnyCallTo("kv.Family.removePendingOutput", famT+".removePendingOutput"), invokeOn(".family", "commitEditLog"), "removePendingOutput", "commitEditLog", 3)
 	})
 
+	// ---- 2b. a table whose bytes did not reach the file is never reported as closed ---------------------------------------------
+	c.Rule("ERRFLOW", "kv/table.storeBuilder.Close{write and close errors are returned}", func() {
+		f := c.Fn("kv/table.storeBuilder.Close")
+		// the buffered writer flushes most of the table only in the deferred writer.Close(): its error must reach the result
+		ds := deferredErrStores(f)
+		nClose := 0
+		for i, d := range ds {
+			fromClose := eng.DependsOn(d.Store.Val, func(x ssa.Value) bool {
+				cl, ok := x.(*ssa.Call)
+				return ok && cl.Common().IsInvoke() && cl.Common().Method.Name() == "Close"
+			})
+			if fromClose {
+				nClose++
+			}
+			c.Check(d.Named, fmt.Sprintf("deferred-error-assigned-to-named-result[%d]", i), d.Store, f,
+				"an error assigned inside a deferred function changes what Close returns only if the variable is a named result", "the deferred closure assigns to the ordinary local `"+d.Var+"`: the value was already returned")
+		}
+		c.Check(nClose == 1, "deferred-writer-close-error-kept", nil, f, "the error of the deferred writer.Close() (final flush of the buffered table bytes) is assigned to Close's result", fmt.Sprintf("%d such assignments", nClose))
+		ws := c.Some(f, invokeOn(".writer", "Write"), "b.writer.Write")
+		if len(ws) < 3 {
+			c.Undecided("expected 3 writer.Write calls in storeBuilder.Close (offsets, keys, footer), found %d", len(ws))
+		}
+		for i, r := range eng.SuccessReturns(f) {
+			for j, w := range ws {
+				ok, why := eng.OkDominates(f, w.Instr, r)
+				c.Check(ok, fmt.Sprintf("success-only-if-written[%d,%d]", i, j), w.Instr, f, "Close returns success only when every footer write succeeded", why)
+			}
+		}
+	})
+
 	// ---- 3. compaction ---------------------------------------------------------------------------------------------
 	c.Rule("ORDER", cjT+"{close<register; merge(ok)<install; cleanup after install}", func() {
 		f := c.Fn(cjT + ".finishCompactionOutputFile")
@@ -233,6 +263,7 @@ func runC01(c *eng.Ctx) {
 			ok, why := ls.SameHold(steps[0].Instr, steps[i].Instr, vsMu, true)
 			c.Check(ok, "one-hold:"+names[i], steps[i].Instr, f, "record, persist, apply and install happen in one write hold of the version set mutex (commits never interleave)", why)
 		}
+		commitBaseInHold(c)
 		ok, why := eng.OkDominates(f, per.Instr, app.Instr)
 		c.Check(ok, "apply-only-if-persisted", app.Instr, f, "the new version is built and installed only after the record was persisted successfully", why)
 		la := eng.CallArgs(add.Instr.(*ssa.Call))[0]
